@@ -8,6 +8,7 @@ int:<n> | flt:<ext>   with <ext> ∈ nan inf -inf p/q.   Assignments `<var>=<val
   bounds <value> <value>                    validation.check_bounds((lower, upper))
   clip <assignments> | slack <assignments> | remk <assignments>
   acc <check|spend> <ceilEps> <ceilDelta> <n> <e1> <d1> … <assignments>     (ext tokens for the accountant state)
+  acctotal <ceilDelta ext> <slack value | -> <e1 value> <d1 value> …   total(spent_budget=[…], slack=…)
   accnew <ceilEps value> <ceilDelta value> <e1 value> <d1 value> …       BudgetAccountant(eps, delta, spent_budget=[…])
   tool <ceilEps> <ceilDelta> <nobounds | <value> <value>> <assignments>
 Answers: ok | typeError | valueError | budgetError | overflowError   (acc spend: `<res> <len>`)
@@ -86,6 +87,10 @@ def pairsE : List Ext → List (Ext × Ext)
   | a :: b :: rest => (a, b) :: pairsE rest
   | _ => []
 
+def pairsV : List PyVal → List (PyVal × PyVal)
+  | a :: b :: r => (a, b) :: pairsV r
+  | _ => []
+
 def step (_ : Unit) (ws : List String) : Unit × String :=
   match ws with
   | "ctor" :: m :: rest =>
@@ -132,13 +137,18 @@ def step (_ : Unit) (ws : List String) : Unit × String :=
           | .error e => ((), s!"{e.toString} {a.spent.length}")
       | _, _ => ((), "bad-op")
     | _, _, _ => ((), "bad-op")
+  | "acctotal" :: cd :: sl :: rest =>
+    match parseExt cd, rest.mapM parseVal with
+    | some cd, some vs =>
+      let slack : Option (Option PyVal) := if sl == "-" then some none else (parseVal sl).map some
+      match slack with
+      | some slack => ((), res (AccV.totalGiven ⟨.posInf, cd, []⟩ (pairsV vs) slack))
+      | none => ((), "bad-op")
+    | _, _ => ((), "bad-op")
   | "accnew" :: ce :: cd :: rest =>
     match parseVal ce, parseVal cd, rest.mapM parseVal with
     | some ce, some cd, some vs =>
-      let rec prs : List PyVal → List (PyVal × PyVal)
-        | a :: b :: r => (a, b) :: prs r
-        | _ => []
-      match AccV.new ce cd (prs vs) with
+      match AccV.new ce cd (pairsV vs) with
       | .ok a => ((), s!"ok {a.spent.length}")
       | .error e => ((), e.toString)
     | _, _, _ => ((), "bad-op")
